@@ -107,6 +107,10 @@ def run(mod, pid, tier, seed, replay, n_override, work, t0):
             b = C.build(pid)
             rs, err = evaluate(mod, [payload['case']], work, tag='rep')
             r = rs[0]
+            if err or not b.ok:
+                print('replay could not be evaluated in Coq: ' + (err or b.log)[-800:])
+                print('VIOLATION property=%s replay=%s no-failing-input-found' % (pid, replay))
+                return 1
             print(json.dumps(dict(f_ok=r['f_ok'], s_ok=r['s_ok'], region=r['region'], why=r['why'], obs=r['obs']),
                              default=str)[:4000])
             if not r['s_ok']:
